@@ -3905,6 +3905,9 @@ func _select(n *node) {
 	}
 
 	n.exec = func(f *frame) bltn {
+		// The select statement may be executed concurrently by several goroutines:
+		// each execution works on its own copy of the cases.
+		cases := append([]reflect.SelectCase{}, cases...)
 		f.mutex.RLock()
 		cases[nbClause] = f.done
 		f.mutex.RUnlock()
